@@ -226,7 +226,7 @@ func TestC08(t *testing.T) {
 			}
 			actions["repeatLast"] = func(rt *rapid.T) {
 				if len(h.Ops) == 0 {
-					rt.Skip("empty history")
+					return // nothing to repeat yet (an action never skips)
 				}
 				do(h.Ops[len(h.Ops)-1])
 			}
